@@ -53,7 +53,7 @@ struct Event { uint64_t seq; int32_t tid; uint32_t kind; int64_t a; int64_t b; }
 struct Stats {
     uint64_t steps, decisions, preempts, sync_ops, fp;
     uint64_t threads, max_live_threads;
-    uint64_t f_spurious, f_notify_choice, f_barging, f_alloc_recycle, f_alloc_quarantined;
+    uint64_t f_spurious, f_notify_choice, f_barging, f_alloc_recycle, f_alloc_quarantined, f_timeout;
     uint64_t p_mutex_contended, p_notify_empty, p_spin_block, p_cv_wait,
         p_notify_multi, p_yield, p_quiesce;
     uint64_t dec_overflow;
@@ -93,6 +93,8 @@ void rt_mutex_unlock(MutexSt*);    // release + scheduling point
 void rt_cv_init(CvSt*);
 void rt_cv_wait(CvSt*, MutexSt*);  // atomically release+sleep; re-acquire
 void rt_cv_waited(CvSt*);          // scheduling point after the real re-lock
+bool rt_cv_wait_timed(CvSt*, MutexSt*); // wait_for / wait_until: true = timed out (simulated time)
+void rt_sleep();                   // this_thread::sleep_for / sleep_until
 void rt_cv_notify(CvSt*, bool all);
 
 void rt_atomic_init(AtomicSt*);
